@@ -73,6 +73,19 @@ def udp_payload(ident, n):
     return (_BASE[st:st + 256] * (n // 256 + 1))[:n]
 
 
+_DG = {}
+
+
+def udp_digest(ident, n):
+    """digest of the first n bytes of datagram `ident` (depends on 7*ident mod 256 and n only)"""
+    k = ((7 * ident) & 0xff, n)
+    d = _DG.get(k)
+    if d is None:
+        if len(_DG) > 20000: _DG.clear()
+        d = _DG[k] = digest(udp_payload(ident, n))
+    return d
+
+
 def pl_of(bs):
     """what a probe prints for a payload"""
     if len(bs) == 0: return "-"
@@ -130,6 +143,7 @@ class Monitor:
         self.last_syn = None
         self.ubound = {}; self.df = {}
         self.sent = []             # datagrams: dict(src, dst, len, id, fwd, disc)
+        self.sent_by_pl = {}; self.sent_by_dst = {}; self.sent_anon = False
         self.ufirst = {}           # (from, len, pl) of datagrams seen by a first-hop probe -> count
         self.handlers = {}
         self.udp_seen = []         # datagrams seen by probes, judged once the call that sent them is known
@@ -232,15 +246,14 @@ class Monitor:
         if not _is_ep(frm): return
         faddr, fport = _split_ep(frm)
         ln_ = _int(d.get("len")); pl = d.get("pl", "")
-        for s in self.sent:
-            if s["len"] != ln_ or s["pl"] != pl: continue
+        for s in self.sent_by_pl.get((ln_, pl), ()):
             if s["src"] is None: return
             sa, sp = _split_ep(s["src"])
             if sp == fport and (sa == faddr or faddr in cfg.exts):
                 if s["disc"]:
                     self.fail("udp_df", "`%s`: a datagram of %d bytes sent with don't-fragment set over a path MTU of %d is in transit" % (ln, ln_, s["mtu"]))
                 return
-        if any(s["src"] is None for s in self.sent): return
+        if self.sent_anon: return
         self.fail("udp_whole", "`%s`: this datagram (len=%d) is not one that was handed to send_to whole: fragmented, merged or altered" % (ln, ln_))
 
     def on_send_to(self, obj, args, res, block, ln):
@@ -256,7 +269,10 @@ class Monitor:
         payload = udp_payload(ident, n)
         rec = dict(src=src, dst=dst, len=n, id=ident, pl=pl_of(payload), fwd=False, disc=False, mtu=None, payload=payload)
         self.sent.append(rec)
+        self.sent_by_pl.setdefault((n, rec["pl"]), []).append(rec)
+        self.sent_by_dst.setdefault(dst, []).append(rec)
         if src is None:
+            self.sent_anon = True
             return            # sender bound implicitly: its address is not known to the monitor
         saddr, sport = _split_ep(src)
         mtu = cfg.path_mtu(saddr, daddr)
@@ -305,13 +321,12 @@ class Monitor:
         me = self.ubound.get(sock)
         if me is None: return
         disc = None
-        for s in self.sent:
-            if s["dst"] != me: continue
+        for s in self.sent_by_dst.get(me, ()):
             if n != min(s["len"], cap if cap is not None else s["len"]): continue
             if sender is not None and s["src"] is not None:
                 sa, sp = _split_ep(s["src"]); ra, rp = _split_ep(sender)
                 if sp != rp or not (sa == ra or ra in self.cfg.exts): continue
-            if digest(s["payload"][:n]) != dg: continue
+            if udp_digest(s["id"], n) != dg: continue
             if s["disc"]: disc = s; continue
             return
         if disc is not None:
